@@ -96,26 +96,27 @@ class DH(Hooks):
         return NotImplemented
 
 
-def state(r, limit, p):
-    """the Decoder value: PRE prefix bytes (a NUL among them, so a scan from 0 would be noticed), then r bytes with the first NUL at p"""
+def state(r, limit, p, padded=True):
+    """the Decoder value: PRE prefix bytes (a NUL among them, so a scan from 0 would be noticed), then r bytes with the first NUL at p;
+    padded: the rest of the terminator's word is zero (as an assembler writes it); otherwise every byte after the NUL is non-zero"""
     pre = [0 if i % 2 == 0 else ("byte", i) for i in range(PRE)]
     rest = []
     for i in range(r):
-        if p is not None and i >= p and i // 4 == p // 4:
-            rest.append(0)                       # the terminator and its padding to the word boundary
+        if p is not None and (i == p or (padded and i >= p and i // 4 == p // 4)):
+            rest.append(0)                       # the terminator (and its padding to the word boundary)
         else:
             rest.append(("byte", PRE + i))
     return ("struct", "Decoder", {"bytes": ("list", pre + rest), "offset": PRE, "limit": NONE if limit is None else ("some", limit)})
 
 
-def evaluate(ctx, name, r, limit, p=None, utf8_ok=True, args=None, typed=None):
+def evaluate(ctx, name, r, limit, p=None, utf8_ok=True, args=None, typed=None, padded=True):
     """-> dict(result, offset, limit, panic)"""
     dm = codec.decoder_methods(ctx)
     if name not in dm:
         raise Anchor("Decoder::%s not found" % name)
     methods = {k: v["fn"] for k, v in dm.items()}
     consts = codec.consts_of(ctx, DEC)
-    sv = state(r, limit, p)
+    sv = state(r, limit, p, padded)
     h = DH(ctx, methods, consts, sv, utf8_ok, typed)
     ev = SymEval(h, "Decoder::" + name)
     f = methods[name]
@@ -155,6 +156,8 @@ def string_cases():
             for p in [None] + list(range(r)):
                 for u in ((True, False) if p is not None else (True,)):
                     yield r, limit, p, u
+                if p is not None and p % 4 != 3:
+                    yield r, limit, p, "unpadded"      # non-zero bytes after the terminator: the string still ends at the first NUL
 
 
 def describe(out):
@@ -196,6 +199,8 @@ def word_seq(r, lim, n):
 
 def terms(v, sh=0):
     """a combination of little-endian words by <<, |, +, ^ -> {(bytes, shift)} (None: something else)"""
+    if v == 0 and not isinstance(v, bool):
+        return set()
     if isinstance(v, tuple) and v and v[0] == "le":
         return {(v[1], sh)}
     if isinstance(v, tuple) and v and v[0] == "bits" and v[1] == "<<" and isinstance(v[3], int):
